@@ -16,7 +16,8 @@ RULE = ("A Flow over a zoo transform (1-4 features, composites, context) with St
         "transform_to_noise(sample(n, c)[i], c[i]) lies within 0.2 of 100*i. (c) 1-D flows: KS distance between 20000 samples "
         "and the CDF obtained by cumulative Gauss-Legendre quadrature of exp(log_prob) (p=1e-9; total mass must be 1 +- 1e-3, "
         "else inconclusive). (d) transform_to_noise(sample) follows N(0,1) per coordinate (KS). Non-trivial: >= 2 distinct "
-        "context rows, or n >= 2, or a KS test ran. Distinct = distinct case JSON.")
+        "context rows, or n >= 2, or a KS test ran. MADE-mixture bases also with narrow components (unconstrained std lowered by 3 or 5), as "
+        "base of the 1-D KS flows and per context row (block i against the mixture conditioned on row i). Distinct = distinct case JSON.")
 ASSUMPTIONS = ["cubic-spline transforms are excluded from the pairing test (their declared inverse approximation would dominate the tolerance)",
                "statistical tests reject at p = 1e-9 with fixed seeds"]
 EXPLANATION = "generated"
@@ -38,7 +39,9 @@ def _case(draw):
                                  "umnn": False, "exclude": NO + (["batchnorm", "compositecdf", "inv_R", "logtanh"] if what == "rowid" else [])}))
     c["what"] = what
     c["kind"] = draw(st.sampled_from(["flow", "flow", "flow", "maf", "realnvp"])) if what in ("pairing", "noise") else "flow"
-    c["base"] = draw(st.sampled_from(["standard", "standard", "conditional", "mademog"])) if what == "pairing" else ("mademog" if what == "mog_rows" else "standard")
+    c["base"] = draw(st.sampled_from(["standard", "standard", "conditional", "mademog"])) if what == "pairing" else (
+        "mademog" if what == "mog_rows" else (draw(st.sampled_from(["standard", "standard", "mademog"])) if what == "ks" else "standard"))
+    c["narrow"] = draw(st.sampled_from([0.0, 3.0, 5.0])) if c["base"] == "mademog" else 0.0
     if what == "mog_rows" and c.get("ctx") is None:
         c["ctx"] = 2
         c["spec"] = {"t": "lu", "identity_init": False, "cache": False} if c["shape"][0] > 1 else {"t": "paffine", "shift": 0.5, "scale": 2.0}
@@ -114,6 +117,11 @@ def run_case(case):
                 base = dist.ConditionalDiagonalNormal([D], context_encoder=enc)
             elif base_kind == "mademog":
                 base = dist.MADEMoG(D, 8, ctxk, num_blocks=1, num_mixture_components=2)
+                if case.get("narrow"):
+                    # narrow mixture components (as after fitting peaked data): the epsilon floor of the standard deviations matters
+                    with torch.no_grad():
+                        base._made.final_layer.bias[2::3] -= case["narrow"]
+                    res.labels.append("narrow_components")
             else:
                 base = dist.StandardNormal([D])
             if case["embed"] and ctxk is not None and what != "rowid":
